@@ -10,7 +10,7 @@ Ltac Zify.zify_post_hook ::= Z.div_mod_to_equations.
 
 Definition l2_no_end (evs : list l2ev) : Prop := forall ev, In ev evs -> ev <> L2Sym SEnd.
 Definition start_level (preset : option (list Z)) : rlevel :=
-  match preset with None => RDict | Some _ => RProps end.
+  match preset with Some (_ :: _) => RProps | _ => RDict end.
 Definition preset_list (preset : option (list Z)) : list Z :=
   match preset with Some p => p | None => [] end.
 
@@ -454,7 +454,7 @@ Proof.
     replace (start_level preset) with
       (level_of (mkL2st (mkEncst (coder_new lc lp pb) (ehist_new dict (preset_list preset) data) renc_init PLeaf)
                         (zlen (preset_kept dict (preset_list preset)))
-                        (negb match preset with Some _ => true | None => false end) true true false []))
-      by (destruct preset; reflexivity).
+                        (negb match preset with Some (_ :: _) => true | _ => false end) true true false []))
+      by (destruct preset as [[|x q]|]; reflexivity).
     exact Hck.
 Qed.
